@@ -1712,6 +1712,14 @@ class FE:
             out.append('__CPROVER_assert(0, "src-assert: %s @%s:%d"); __CPROVER_assume(0);' % (msg, fn_.split('/')[-1], ln_)); return False
         if n == 'abort':
             out.append('__CPROVER_assert(0, "abort() reached"); __CPROVER_assume(0);'); return False
+        if n == '__cxa_guard_acquire':      # function-local static initialisation guard (single-threaded at this point of the model)
+            out.append('%s(uint32_t)(*(uint8_t*)%s == 0);' % (asg, A[0])); return False
+        if n == '__cxa_guard_release':
+            out.append('*(uint8_t*)%s = 1;' % A[0]); return False
+        if n == '__cxa_guard_abort': return False
+        if n == '__cxa_atexit':
+            if r: out.append('%s0;' % asg)
+            return False
         if n == '__cxa_allocate_exception':
             out.append('%s(uint8_t*)verif_new(%s);' % (asg, A[0])); return False
         if n == '__cxa_throw':
@@ -1864,7 +1872,7 @@ def emit_module(m, opts):
     def kept(n): return keep is None or n in keep
     em.yielding = set(); em.addr_taken_yielding = []; em.frame_decls = []
     if getattr(opts, 'conc', False):
-        callre = re.compile(r'\b(?:call|invoke)\b[^@%]*?(?:\([^)]*\)\*? )?(@"(?:[^"\\]|\\.)*"|@[-a-zA-Z$._0-9]+)\(')
+        callre = re.compile(r'\b(?:call|invoke)\b[^\n]*?(@"(?:[^"\\]|\\.)*"|@[-a-zA-Z$._0-9]+)\(')
         fn_txt = {n: '\n'.join(sum([b.ins for b in f.blocks], [])) for n, f in m.funcs.items() if not f.decl and kept(n)}
         calls = {n: set(callre.findall(t)) for n, t in fn_txt.items()}
         prim = ('@verif_mutex_lock', '@verif_cv_wait', '@verif_thread_join', '@verif_yield')
@@ -1911,7 +1919,7 @@ def emit_module(m, opts):
         f = m.funcs[n]
         if not kept(n): continue
         nm = n[1:].strip('"')
-        if nm.startswith('llvm.') or nm in PASSTHRU or nm.startswith('__CPROVER') or nm in ('_Znwm', '_Znam', '_ZdlPv', '_ZdaPv', '_ZdlPvm', '_ZdaPvm', '__assert_fail', 'abort', '__cxa_throw', '__cxa_allocate_exception', '__cxa_begin_catch', '__cxa_end_catch', '__cxa_rethrow', '__cxa_free_exception'):
+        if nm.startswith('llvm.') or nm in PASSTHRU or nm.startswith('__CPROVER') or nm in ('_Znwm', '_Znam', '_ZdlPv', '_ZdaPv', '_ZdlPvm', '_ZdaPvm', '__assert_fail', 'abort', '__cxa_guard_acquire', '__cxa_guard_release', '__cxa_guard_abort', '__cxa_atexit', '__cxa_throw', '__cxa_allocate_exception', '__cxa_begin_catch', '__cxa_end_catch', '__cxa_rethrow', '__cxa_free_exception'):
             continue
         args = ', '.join('%s %s' % (em.cty(t), ('v_' + san(pn)) if pn else '') for (t, pn) in f.params)
         if f.va: args = (args + ', ...') if args else '...'
